@@ -91,7 +91,7 @@ func progs() []prog {
 				var wg mc.WaitGroup
 				wg.Add(2)
 				for i := 0; i < 2; i++ {
-					mc.Go(func() { defer wg.Done(); *mc.W(x) = *mc.R(x) + 1 })
+					mc.Go(func() { defer wg.Done(); *mc.W(x, 0) = *mc.R(x, 0) + 1 })
 				}
 				wg.Wait()
 			}, Observe: obs(func() string { return fmt.Sprint(*x) })}
@@ -103,10 +103,10 @@ func progs() []prog {
 				var mu mc.Mutex
 				wg.Add(2)
 				for i := 0; i < 2; i++ {
-					mc.Go(func() { defer wg.Done(); mu.Lock(); *mc.W(x) = *mc.R(x) + 1; mu.Unlock() })
+					mc.Go(func() { defer wg.Done(); mu.Lock(); *mc.W(x, 0) = *mc.R(x, 0) + 1; mu.Unlock() })
 				}
 				wg.Wait()
-				_ = *mc.R(x)
+				_ = *mc.R(x, 0)
 			}, Observe: obs(func() string { return fmt.Sprint(*x) })}
 		}},
 		{name: "waitgroup rendezvous", outcomes: 1, sc: func() explore.Exec {
@@ -168,18 +168,18 @@ func progs() []prog {
 			x := new(int)
 			return explore.Exec{Body: func() {
 				c := make(chan struct{})
-				mc.Go(func() { *mc.W(x) = 1; mc.Send(c, struct{}{}) })
+				mc.Go(func() { *mc.W(x, 0) = 1; mc.Send(c, struct{}{}) })
 				mc.Recv(c)
-				_ = *mc.R(x)
+				_ = *mc.R(x, 0)
 			}, Observe: obs(func() string { return fmt.Sprint(*x) })}
 		}},
 		{name: "write after send races with reader", outcomes: 1, race: true, sc: func() explore.Exec {
 			x := new(int)
 			return explore.Exec{Body: func() {
 				c := make(chan struct{})
-				mc.Go(func() { mc.Send(c, struct{}{}); *mc.W(x) = 1 })
+				mc.Go(func() { mc.Send(c, struct{}{}); *mc.W(x, 0) = 1 })
 				mc.Recv(c)
-				_ = *mc.R(x)
+				_ = *mc.R(x, 0)
 			}, Observe: obs(func() string { return "" })}
 		}},
 	}
